@@ -48,11 +48,18 @@ type prog struct {
 
 const maxKeys = 3
 
-var keyNames = [maxKeys]string{"a", "b", "c"}
+// The first key is the zero value of the key type: "absent" versus "present
+// under the zero key / with the zero value" must not be confused.
+var keyNames = [maxKeys]string{"", "b", "c"}
+
+// keyShow: how the keys are written in programs and histories.
+var keyShow = [maxKeys]string{"''", "b", "c"}
 
 func keyIdx(k string) int {
-	if len(k) == 1 && k[0] >= 'a' && k[0] < 'a'+maxKeys {
-		return int(k[0] - 'a')
+	for i, n := range keyNames {
+		if k == n {
+			return i
+		}
 	}
 	return -1
 }
@@ -132,14 +139,14 @@ func (p *prog) String() string {
 					sb.WriteByte(')')
 				}
 			case p.kind == "map" && o.kind == mStore:
-				fmt.Fprintf(&sb, "(%s,%d)", keyNames[o.key], o.val)
+				fmt.Fprintf(&sb, "(%s,%d)", keyShow[o.key], o.val)
 			case p.kind == "map" && o.kind <= mLoadAndDelete:
-				fmt.Fprintf(&sb, "(%s)", keyNames[o.key])
+				fmt.Fprintf(&sb, "(%s)", keyShow[o.key])
 			case p.kind == "atomic" && (o.kind == aForEach || o.kind == aClear):
 			case p.kind == "atomic" && (o.kind == aGetOrCreate || o.kind == aObjAdd || o.kind == aObjStore):
-				fmt.Fprintf(&sb, "(%s,%s)", keyNames[o.key], fmtVal(o.val))
+				fmt.Fprintf(&sb, "(%s,%s)", keyShow[o.key], fmtVal(o.val))
 			case p.kind == "atomic":
-				fmt.Fprintf(&sb, "(%s)", keyNames[o.key])
+				fmt.Fprintf(&sb, "(%s)", keyShow[o.key])
 			}
 			if o.pre > 0 {
 				fmt.Fprintf(&sb, "~%d", o.pre)
@@ -216,6 +223,9 @@ func genProg(kind string, rng *mon.RNG) *prog {
 		case "map":
 			if o.kind == mStore {
 				o.val = uniq(1)
+				if rng.Chance(1, 6) {
+					o.val = 0 // the zero value is a value like any other
+				}
 			}
 		case "atomic":
 			if (o.kind == aObjAdd || o.kind == aObjLoad || o.kind == aObjStore) && !has[o.key] {
@@ -224,9 +234,15 @@ func genProg(kind string, rng *mon.RNG) *prog {
 			switch o.kind {
 			case aGetOrCreate:
 				o.val = uniq(1) << 32
+				if rng.Chance(1, 6) {
+					o.val = 0
+				}
 				has[o.key] = true
 			case aObjStore:
 				o.val = uniq(1) << 32
+				if rng.Chance(1, 6) {
+					o.val = 0
+				}
 			case aObjAdd:
 				o.val = 1 << uint(uniq(1)%31)
 			}
@@ -769,7 +785,7 @@ func (s *mapSUT) model() porcupine.Model {
 
 func (s *mapSUT) describe(input, output any) string {
 	in, out := input.(mapIn), output.(mapOut)
-	k := keyNames[in.key]
+	k := keyShow[in.key]
 	bad := ""
 	if out.bad != "" {
 		bad = " MALFORMED: " + out.bad
@@ -791,7 +807,7 @@ func (s *mapSUT) describe(input, output any) string {
 		var parts []string
 		for i := 0; i < maxKeys; i++ {
 			if out.mask&(1<<uint(i)) != 0 {
-				parts = append(parts, fmt.Sprintf("%s=%d", keyNames[i], out.snap[i]))
+				parts = append(parts, fmt.Sprintf("%s=%d", keyShow[i], out.snap[i]))
 			}
 		}
 		return fmt.Sprintf("Range() = {%s}%s", strings.Join(parts, " "), bad)
@@ -801,7 +817,7 @@ func (s *mapSUT) describe(input, output any) string {
 		}
 		kk := "?"
 		if out.key >= 0 {
-			kk = keyNames[out.key]
+			kk = keyShow[out.key]
 		}
 		return fmt.Sprintf("Range(stop at first) = %s=%d%s", kk, out.val, bad)
 	}
@@ -809,13 +825,13 @@ func (s *mapSUT) describe(input, output any) string {
 }
 
 func maskStr(m uint8) string {
-	s := "{"
+	var parts []string
 	for i := 0; i < maxKeys; i++ {
 		if m&(1<<uint(i)) != 0 {
-			s += keyNames[i]
+			parts = append(parts, keyShow[i])
 		}
 	}
-	return s + "}"
+	return "{" + strings.Join(parts, " ") + "}"
 }
 
 // ---------------------------------------------------------------- cmap.Atomic
@@ -1006,7 +1022,7 @@ func fmtVal(v int64) string {
 
 func (s *atomSUT) describe(input, output any) string {
 	in, out := input.(atomIn), output.(atomOut)
-	k := keyNames[in.key]
+	k := keyShow[in.key]
 	switch in.op {
 	case aGetOrCreate:
 		return fmt.Sprintf("GetOrCreate(%s,%s) = obj%d", k, fmtVal(in.val), out.obj)
@@ -1024,7 +1040,7 @@ func (s *atomSUT) describe(input, output any) string {
 		var parts []string
 		for i := 0; i < maxKeys; i++ {
 			if out.objs[i] != 0 {
-				parts = append(parts, fmt.Sprintf("%s=obj%d", keyNames[i], out.objs[i]-1))
+				parts = append(parts, fmt.Sprintf("%s=obj%d", keyShow[i], out.objs[i]-1))
 			}
 		}
 		bad := ""
